@@ -288,7 +288,11 @@ func runCheck(p *property, tier string, seed int) int {
 				nativeSkip++
 			}
 		}
+		ex.Deadline = t0.Add(deadline(tier))
 		ex.Run(g.Cases)
+		if ex.Dropped > 0 {
+			inconcl = append(inconcl, fmt.Sprintf("deadline of %s reached: %d path prefixes left unexplored", deadline(tier), ex.Dropped))
+		}
 		stats.Paths += ex.Stats.Paths
 		stats.Queries += ex.Stats.Queries
 		stats.Unknown += ex.Stats.Unknown
@@ -490,6 +494,20 @@ func runCheck(p *property, tier string, seed int) int {
 	fmt.Printf("%s %s: paths=%d obligations=%d discharged=%d known=%d new=%d validated-natively=%d queries=%d solver=%.1fs wall=%.1fs kinds=%v exit=%d\n",
 		p.ID, tier, totalPaths, obligations, discharged, len(knownList), nViol, validated, stats.Queries, stats.SolverTime.Seconds(), time.Since(t0).Seconds(), kinds, exit)
 	return exit
+}
+
+// deadline is the wall-clock budget of one check run; what is left unexplored
+// when it expires makes the run inconclusive (never a pass).
+func deadline(tier string) time.Duration {
+	if s := os.Getenv("VERIF_DEADLINE_S"); s != "" {
+		if n, err := strconv.Atoi(s); err == nil && n > 0 {
+			return time.Duration(n) * time.Second
+		}
+	}
+	if tier == "thorough" {
+		return 90 * time.Minute
+	}
+	return 12 * time.Minute
 }
 
 func workers() int {
